@@ -5,7 +5,7 @@ from copy import copy
 from kernel.type import TyInst
 from kernel import term
 from kernel.term import Term, Implies, Not, Lambda, Inst
-from kernel.thm import Thm
+from kernel.thm import Thm, InvalidDerivationException
 from kernel import theory
 from kernel.proofterm import ProofTerm, TacticException
 from logic import logic
@@ -108,9 +108,20 @@ class rule(Tactic):
         if set(term.get_svars(th.assums)) != set(th.prop.get_svars()) or \
            set(term.get_stvars(th.assums)) != set(th.prop.get_stvars()) or \
            not matcher.is_pattern_list(th.assums, []):
-            return apply_theorem(th_name, *pts, inst=inst)
+            pt = apply_theorem(th_name, *pts, inst=inst)
         else:
-            return apply_theorem(th_name, *pts)
+            pt = apply_theorem(th_name, *pts)
+
+        # Matching works modulo eta-conversion: the instance of the theorem may
+        # contain %x. f x where the goal has f. Contract, so the result states the goal.
+        if pt.prop != goal.prop:
+            try:
+                pt2 = ProofTerm('rewrite_fact', 'eta_conversion', [pt])
+            except InvalidDerivationException:
+                pt2 = pt
+            if pt2.prop == goal.prop:
+                pt = pt2
+        return pt
 
 class resolve(Tactic):
     """Given any goal, a theorem of the form ~A, and an existing fact A,
